@@ -36,6 +36,20 @@ def _close(zoo, a, b, scale=1.0):
     return a.shape == b.shape and zoo.close(a, b, dt=a.dtype if a.dtype.is_floating_point else None, scale=scale)
 
 
+def _sdense(res):
+    """densify a sparse COO result of a function under test -- after checking its invariants by hand (torch does not, and an
+    out-of-range index makes to_dense() read/write out of bounds: the worker would die instead of reporting a failure)"""
+    if not res.is_sparse:
+        return res
+    idx, val = res._indices(), res._values()
+    if idx.dim() != 2 or idx.shape[0] != res.sparse_dim() or idx.shape[1] != val.shape[0]:
+        return val.new_full(tuple(res.shape), float("nan"))  # malformed: compares unequal to everything
+    for d in range(idx.shape[0]):
+        if idx.shape[1] and (int(idx[d].min()) < 0 or int(idx[d].max()) >= res.shape[d]):
+            return val.new_full(tuple(res.shape), float("nan"))  # index out of range: compares unequal to everything
+    return res.to_dense()
+
+
 def _toep_dense(torch, c, r):
     """T[..., i, j] = c[..., i-j] if i >= j else r[..., j-i]   (batched over leading dims)"""
     n = c.shape[-1]
@@ -252,7 +266,7 @@ def rtc_sparse(tier):
         ok, res = rec.guard("make_sparse_from_indices_and_values/dense_def", lab0, lambda: S.make_sparse_from_indices_and_values(idx.clone(), val.clone(), nb))
         if ok:
             rec.check("make_sparse_from_indices_and_values/dense_def", lab0,
-                      res.is_sparse and tuple(res.shape) == tuple(exp.shape) and res.dtype == dt and _close(zoo, res.to_dense(), exp, scale=4),
+                      res.is_sparse and tuple(res.shape) == tuple(exp.shape) and res.dtype == dt and _close(zoo, _sdense(res), exp, scale=4),
                       f"shape {tuple(res.shape)} vs {tuple(exp.shape)} dtype {res.dtype}")
     for dt, dn in _dts(torch):  # all values zero (empty sparse tensor branch)
         for b in [(), (2,), (2, 3)]:
@@ -261,13 +275,13 @@ def rtc_sparse(tier):
             lab = f"{dn}|b={b}|allzero"
             ok, res = rec.guard("make_sparse_from_indices_and_values/all_zero", lab, lambda: S.make_sparse_from_indices_and_values(idx, val, 4))
             if ok:
-                rec.check("make_sparse_from_indices_and_values/all_zero", lab, tuple(res.shape) == (*b, 4, 3) and res.dtype == dt and bool((res.to_dense() == 0).all()), "not the zero matrix")
+                rec.check("make_sparse_from_indices_and_values/all_zero", lab, tuple(res.shape) == (*b, 4, 3) and res.dtype == dt and bool((_sdense(res) == 0).all()), "not the zero matrix")
 
     # sparse_eye
     for n in [1, 2, 5]:
         ok, res = rec.guard("sparse_eye/dense_def", f"n={n}", lambda: S.sparse_eye(n))
         if ok:
-            rec.check("sparse_eye/dense_def", f"n={n}", res.is_sparse and torch.equal(res.to_dense(), torch.eye(n)), "not I")
+            rec.check("sparse_eye/dense_def", f"n={n}", res.is_sparse and torch.equal(_sdense(res), torch.eye(n)), "not I")
 
     # to_sparse
     shapes = [(1,), (4,), (1, 1), (3, 4), (2, 3, 4), (2, 1, 3, 2)]
@@ -287,7 +301,7 @@ def rtc_sparse(tier):
                 lab = f"{dn}|shape={sh}|{kind}"
                 ok, res = rec.guard("to_sparse/roundtrip", lab, lambda: S.to_sparse(d.clone()))
                 if ok:
-                    rec.check("to_sparse/roundtrip", lab, res.is_sparse and tuple(res.shape) == tuple(d.shape) and res.dtype == dt and torch.equal(res.to_dense(), d), "to_sparse(d).to_dense() != d")
+                    rec.check("to_sparse/roundtrip", lab, res.is_sparse and tuple(res.shape) == tuple(d.shape) and res.dtype == dt and torch.equal(_sdense(res), d), "to_sparse(d).to_dense() != d")
 
     # sparse_getitem (1-d / 2-d sparse; ints, slices, combinations; empty results; empty sparse)
     def mk(d):
@@ -319,7 +333,7 @@ def rtc_sparse(tier):
                         grp = f"sparse_getitem/{nd}d_{'zero_length_slice' if zero_len else fam_}"
                         ok, res = rec.guard(grp, lab, lambda: S.sparse_getitem(mk(d), ix if len(ix) > 1 else ix[0]))
                         if ok:
-                            ok, rd = rec.guard(grp, lab + "|densify", lambda: res.to_dense() if torch.is_tensor(res) and res.is_sparse else torch.as_tensor(res, dtype=dt))
+                            ok, rd = rec.guard(grp, lab + "|densify", lambda: _sdense(res) if torch.is_tensor(res) and res.is_sparse else torch.as_tensor(res, dtype=dt))
                         if ok:
                             rec.check(grp, lab, tuple(rd.shape) == tuple(exp.shape) and torch.equal(rd.to(dt), exp), f"got {rd.tolist()} expected {exp.tolist()}")
 
@@ -346,7 +360,7 @@ def rtc_sparse(tier):
                     lab = f"{dn}|shape={sh}|repeat={reps}|{kind}|{how}"
                     ok, res = rec.guard(f"sparse_repeat/{fam_}", lab, call)
                     if ok:
-                        rec.check(f"sparse_repeat/{fam_}", lab, tuple(res.shape) == tuple(exp.shape) and torch.equal(res.to_dense(), exp), f"shape {tuple(res.shape)} vs {tuple(exp.shape)}; values differ from dense.repeat")
+                        rec.check(f"sparse_repeat/{fam_}", lab, tuple(res.shape) == tuple(exp.shape) and torch.equal(_sdense(res), exp), f"shape {tuple(res.shape)} vs {tuple(exp.shape)}; values differ from dense.repeat")
     return rec.obligations()
 
 
